@@ -15,7 +15,7 @@ RULE = ("All item trees root->(1..3 children drawn from frames A,B,C, sub-items 
         "assignment of elaborate results {None, PRUNE, [], replace-by-frame, replace-by-2-frames, "
         "replace-by-item, insert-frame, insert-item, insert-nothing} to the frames present x "
         "{None, PRUNE, insert, replace} on the frames that hooks insert; plus unwrap chains of "
-        "length 0..5, 50, 150 and cycles. A case is non-trivial if at least one hook returns "
+        "length 0..5, 50, 150 and cycles, and a non-progressing item among siblings that still need unwrapping (differential against an irreducible item in its place: same frames and leaf, exactly one error). A case is non-trivial if at least one hook returns "
         "non-None and it is inside the documented rules (no leaf before a frame); a prune / replacement removes the run of following entries that lie at the frame's unwrapping depth or deeper, counted after everything has been unwrapped (so it reaches into later sibling items of the same unwrap result, and never past an entry of a shallower level); distinct = distinct (tree, hook table).  state = distinct reference-queue "
         "configuration, transition = one reference unwrap/elaborate step; every case's trace is "
         "replayed on the implementation.")
@@ -281,6 +281,8 @@ def check_case(case, stats=None):
     """Returns (status, detail, sig). status in ok / oos / viol"""
     if case.get("mode") == "chain":
         return check_chain(case)
+    if case.get("mode") == "stuck":
+        return check_stuck(case)
     try:
         rf, rl = reference(case, stats)
     except OutOfScope as ex:
@@ -301,6 +303,43 @@ def check_case(case, stats=None):
     except OutOfScope:
         pass
     return "viol", "impl frames=%s leaf=%s error=%r; reference frames=%s leaf=%s" % (gf, gl, ge, rf, rl), sig
+
+
+def check_stuck(case):
+    """An item that never makes progress (it unwraps to itself, directly or through a short cycle) among siblings that
+    still need unwrapping.  Differential oracle: the same tree with an irreducible item in its place; the stuck one must
+    change nothing but add exactly one error (everything after it is unwrapped as if it were simply irreducible)."""
+    before, after, cyc = case["before"], case["after"], case["cycle"]
+    base = {"q": ["tuple", ["A"]], "r": ["one", ["u"]], "u": ["one", ["D"]], "v": ["list", ["C", "q"]]}
+
+    def tree(stuck):
+        unwrap = dict(base)
+        if stuck:
+            for i in range(cyc):
+                unwrap["k%d" % i] = [case["kind"], ["k%d" % ((i + 1) % cyc)]]
+        else:
+            unwrap["k0"] = None
+        unwrap["p"] = ["tuple", before + ["k0"] + after]
+        return {"root": "p", "unwrap": unwrap, "elab": {}}
+    try:
+        tf, tl, te = run_impl(tree(False))
+        sf, sl, se = run_impl(tree(True))
+    except BaseException as ex:  # noqa
+        if isinstance(ex, KeyboardInterrupt):
+            raise
+        return "viol", "extract raised/hung %s: %s on %s" % (type(ex).__name__, ex, case), "stuck-raised"
+    if te is not None:
+        return "viol", "twin with an irreducible item reports an error %r (%s)" % (te, case), "stuck-twin"
+
+    def norm(leaf):
+        if isinstance(leaf, list):
+            return [("K" if isinstance(x, str) and x.startswith("k") else x) for x in leaf]
+        return "K" if isinstance(leaf, str) and leaf.startswith("k") else leaf
+    nerr = 0 if se is None else (len(se.exceptions) if hasattr(se, "exceptions") else 1)
+    if sf != tf or norm(sl) != norm(tl) or nerr != 1:
+        return "viol", "stuck item among siblings %s: frames=%s leaf=%s errors=%d; with an irreducible item in its place: frames=%s leaf=%s" % (
+            case, sf, sl, nerr, tf, tl), "stuck-siblings"
+    return "ok", "", ""
 
 
 def check_chain(case):
@@ -412,10 +451,22 @@ def gen_chains():
                     yield {"mode": "chain", "n": n, "cyclic": True, "back": back, "prefix_frame": pre, "kind": kind}
 
 
+def gen_stuck():
+    for before in ([], ["B"], ["q"]):
+        for after in (["q"], ["r"], ["v"], ["q", "r"], ["A"], ["r", "B"], []):
+            if "q" in before and ("q" in after or "v" in after):
+                continue
+            if "B" in before and "B" in after:
+                continue
+            for cyc in (1, 2):
+                for kind in ("one", "tuple"):
+                    yield {"mode": "stuck", "before": before, "after": after, "cycle": cyc, "kind": kind}
+
+
 def run(ctx):
     stats = RefStats()
     idx = 0
-    for case in itertools.chain(gen_chains(), gen_cases(ctx.tier)):
+    for case in itertools.chain(gen_chains(), gen_stuck(), gen_cases(ctx.tier)):
         idx += 1
         if not ctx.mine(idx):
             continue
@@ -428,7 +479,7 @@ def run(ctx):
             ctx.count("oos:" + detail)
             continue
         ctx.count("traces_validated_against_impl")
-        if case.get("mode") == "chain" or case["elab"]:
+        if case.get("mode") in ("chain", "stuck") or case["elab"]:
             ctx.count("distinct_nontrivial")
         if status == "viol":
             ctx.violation(case, detail, sig)
